@@ -2,7 +2,7 @@
     This file only pins statements: every theorem restates a lemma of proofs/ verbatim and is closed by it. *)
 From CacheD Require Import Base Sketch Model Window Micro.
 From CacheD.proofs Require Import Defs ApiProofs HistoryProofs StatsProofs.
-From CacheD.proofs Require Import MicroProofs.
+From CacheD.proofs Require Import MicroProofs MicroBal MicroAll.
 
 (** the micro steps of one call, executed back to back by a caller that is not inside another call, are the
    atomic call of Model.v: same state, same observation, and the caller is out of every window again *)
@@ -16,14 +16,12 @@ Theorem C02_mcall_atomic :
 Proof. exact mcall_atomic. Qed.
 Print Assumptions C02_mcall_atomic.
 
-(** (C04 under every interleaving of caller micro steps): once the entry of k is soft-deleted (delete(k) passed
-   its `delete.marked` point), no micro step of any caller (puts, deletes, reads, put_or_update's first half, shutdown
-   stages) and no whole event of the atomic model makes it readable again: it stays hidden until it is physically removed *)
+(** (C04 / C02 along whole micro schedules, no restriction on the events): at every state of every micro
+   schedule, the next step - whichever thread takes it, wherever it stands - does not re-expose a soft-deleted entry *)
 Theorem C02_deleted_value_never_returned_micro :
-  forall cfg ms ev k e,
-  (forall e0, ev = MWin e0 -> exists b, e0 = WBase b) -> (forall orc, ev <> MWorker1 orc) -> ev <> MWorker2 ->
-  alookup k (store (mbase ms)) = Some e -> e_soft e = true ->
-  hid k (mbase (fst (mstep cfg ms ev))).
-Proof. exact micro_soft_deleted_stays_hidden. Qed.
+  forall cfg evs ev k e,
+  alookup k (store (mbase (mrun cfg evs))) = Some e -> e_soft e = true ->
+  hid k (mbase (fst (mstep cfg (mrun cfg evs) ev))).
+Proof. exact micro_hidden_run. Qed.
 Print Assumptions C02_deleted_value_never_returned_micro.
 
